@@ -102,7 +102,11 @@ class RegionInterp:
                                 st.value.func.id in ('int', 'float') and len(st.value.args) == 1 and \
                                 isinstance(st.value.args[0], ast.Name):
                             continue
-                        raise AnalysisError(f'A16: unrecognised update `{norm(st)}`')
+                        nv = self._num(st.value, v)
+                        if nv is None:
+                            raise AnalysisError(f'A16: unrecognised update `{norm(st)}`')
+                        v = nv
+                        continue
                     v = self.const(st.value)
                     continue
                 if isinstance(t, (ast.Tuple, ast.List)) and not _mentions(st, self.var):
@@ -119,7 +123,12 @@ class RegionInterp:
                         self.env[t.id] = self.env[k]
                     continue
                 if isinstance(t, ast.Name) and _mentions(st.value, self.var):
-                    # derived quantity (e.g. bounds_fraction): not tracked
+                    # derived quantity (e.g. bounds_fraction): tracked when it is plain arithmetic
+                    nv = self._num(st.value, v)
+                    if nv is not None:
+                        self.env[t.id] = nv
+                    else:
+                        self.env.pop(t.id, None)
                     continue
             if isinstance(st, (ast.Expr, ast.Pass, ast.AnnAssign, ast.For, ast.AugAssign, ast.Assign)):
                 if isinstance(st, ast.For):
@@ -128,6 +137,36 @@ class RegionInterp:
                 continue
             raise AnalysisError(f'A16: unrecognised statement `{short(st, 60)}`')
         return Outcome('fall'), v
+
+    def _num(self, e, v):
+        """Numeric value of an arithmetic / min / max expression over the variable and the constants."""
+        if isinstance(e, ast.Name) and e.id == self.var:
+            return v
+        if isinstance(e, ast.Call) and isinstance(e.func, ast.Name) and e.func.id in ('min', 'max') and \
+                len(e.args) >= 2 and not e.keywords:
+            vals = [self._num(a, v) for a in e.args]
+            if any(x is None for x in vals):
+                return None
+            return min(vals) if e.func.id == 'min' else max(vals)
+        if isinstance(e, ast.BinOp) and isinstance(e.op, (ast.Add, ast.Sub, ast.Mult, ast.Div)):
+            a, b = self._num(e.left, v), self._num(e.right, v)
+            if a is None or b is None:
+                return None
+            try:
+                return {ast.Add: a + b, ast.Sub: a - b, ast.Mult: a * b}.get(type(e.op), None) \
+                    if not isinstance(e.op, ast.Div) else a / b
+            except ZeroDivisionError:
+                return None
+        try:
+            return intcmp._const(e, self.env)
+        except intcmp.NotSimple:
+            return None
+
+    def ret_tuple(self, ret_stmt, v):
+        """Numeric values of every element of a returned tuple (None where not computable)."""
+        e = ret_stmt.value
+        elts = e.elts if isinstance(e, ast.Tuple) else [e]
+        return [self._num(x, v) for x in elts]
 
     def _ret_value(self, e, v):
         if e is None:
